@@ -145,7 +145,7 @@ func (r *Decoder) scan(ectx evaluationContext, fn scanFunc) (readerStack, error)
 
 				uncommitted = append(uncommitted, r1)
 
-				if r1.Rune == '\n' {
+				if r1.Rune == '\n' || r1.Rune == '\r' {
 					break
 				}
 			}
